@@ -173,6 +173,10 @@ func c09(args []string) error {
 				}
 				evs = append(evs, ev{[]string{"dup", "wrongblock", "relabelled", "twosigners", "stale", "unknown", "outsider"}[rng.Intn(7)], from})
 			}
+			if rng.Intn(3) == 0 {
+				// the collector leaves the view on a timeout certificate while votes are still arriving (its high QC does not change)
+				evs = append(evs, ev{"tc", 1})
+			}
 			rng.Shuffle(len(evs), func(i, j int) { evs[i], evs[j] = evs[j], evs[i] })
 			proposalSeen := false
 			deliverVote := func(kind string, from int, vm hotstuff.VoteMsg, abs obj) {
@@ -188,6 +192,32 @@ func c09(args []string) error {
 			for _, e := range evs {
 				p := nodes[e.from-1]
 				switch e.kind {
+				case "tc":
+					if !proposalSeen || r.VS.View() != view {
+						continue // (before the proposal the collector's own next proposal would release the votes set aside: another scenario)
+					}
+					var sigs []hotstuff.QuorumSignature
+					for _, pp := range nodes {
+						if pp.ID != R && len(sigs) < q {
+							sg, err := pp.Auth.Sign(view.ToBytes())
+							if err != nil {
+								return err
+							}
+							sigs = append(sigs, sg)
+						}
+					}
+					agg, err := nodes[0].Auth.Combine(sigs...)
+					if err != nil {
+						return err
+					}
+					r.Deliver(hotstuff.NewViewMsg{ID: 1, SyncInfo: hotstuff.NewSyncInfoWith(hotstuff.NewTimeoutCert(agg, view))})
+					settle()
+					r.Drain()
+					tl := obj{"op": "tcview"}
+					if async {
+						tl["parked"] = r.Gate.Count()
+					}
+					emitQCs(tl, b)
 				case "proposal":
 					s0 := len(r.Signed)
 					r.Deliver(hotstuff.ProposeMsg{ID: 1, Block: b})
